@@ -184,8 +184,8 @@ class Corr:
         else:
             # There are no checks here yet. There are so many possible scenarios, where this can go wrong.
             if normalize:
-                for t in range(self.T):
-                    vector_l[t], vector_r[t] = vector_l[t] / np.sqrt((vector_l[t] @ vector_l[t])), vector_r[t] / np.sqrt(vector_r[t] @ vector_r[t])
+                vector_l = [None if v is None else v / np.sqrt(v @ v) for v in vector_l]
+                vector_r = [None if v is None else v / np.sqrt(v @ v) for v in vector_r]
 
             newcontent = [None if (_check_for_none(self, self.content[t]) or vector_l[t] is None or vector_r[t] is None) else np.asarray([vector_l[t].T @ self.content[t] @ vector_r[t]]) for t in range(self.T)]
         return Corr(newcontent)
